@@ -144,34 +144,44 @@ func depthOf(v any) int {
 	return 0
 }
 
-// fixTimes rewrites absval's {"t":"time","ns":"<unix nanos>"} into the integers the specification can compute with.
-func fixTimes(v any) any {
+// encode projects a returned value with absval, except that time.Time is projected here: absval goes through UnixNano(), which
+// overflows for instants beyond 2262-04-11 (exactly the range of finding F7), so seconds and nanoseconds are taken separately.
+//
+//	{"t":"time","sec": unix seconds (-1 if outside 0..2^31), "ns": nanoseconds within the second, "sub": nanoseconds within the
+//	 millisecond, "ms": unix milliseconds as an exact decimal}
+func encode(v any) any {
 	switch t := v.(type) {
-	case map[string]any:
-		if t["t"] == "time" {
-			ns, ok := new(big.Int).SetString(fmt.Sprint(t["ns"]), 10)
-			if !ok {
-				return map[string]any{"t": "time", "sec": -1, "ns": -1, "sub": -1, "ms": absval.Dec("0")}
-			}
-			sec, rem := new(big.Int).DivMod(ns, big.NewInt(1_000_000_000), new(big.Int))
-			ms, sub := new(big.Int).DivMod(ns, big.NewInt(1_000_000), new(big.Int))
-			s := int64(-1)
-			if sec.IsInt64() && sec.Int64() >= 0 && sec.Int64() < 1<<31 {
-				s = sec.Int64()
-			}
-			return map[string]any{"t": "time", "sec": s, "ns": rem.Int64(), "sub": sub.Int64(), "ms": absval.Dec(ms.String())}
+	case time.Time:
+		sec := t.Unix()
+		ns := int64(t.Nanosecond())
+		ms := new(big.Int).Mul(big.NewInt(sec), big.NewInt(1000))
+		ms.Add(ms, big.NewInt(ns/1_000_000))
+		s := int64(-1)
+		if sec >= 0 && sec < 1<<31 {
+			s = sec
 		}
-		for k, e := range t {
-			t[k] = fixTimes(e)
-		}
-		return t
+		return map[string]any{"t": "time", "sec": s, "ns": ns, "sub": ns % 1_000_000, "ms": absval.Dec(ms.String())}
 	case []any:
+		a := make([]any, len(t))
 		for i, e := range t {
-			t[i] = fixTimes(e)
+			a[i] = encode(e)
 		}
-		return t
+		return map[string]any{"t": "arr", "v": a}
+	case map[string]any:
+		keys := make([]string, 0, len(t))
+		for k := range t {
+			keys = append(keys, k)
+		}
+		sort.Strings(keys)
+		ks := make([]any, len(keys))
+		vs := make([]any, len(keys))
+		for i, k := range keys {
+			ks[i] = valOpt.Encode(k).(map[string]any)["v"]
+			vs[i] = encode(t[k])
+		}
+		return map[string]any{"t": "obj", "k": ks, "v": vs}
 	}
-	return v
+	return valOpt.Encode(v)
 }
 
 func observe(in []byte, apis []string) []group {
@@ -182,7 +192,7 @@ func observe(in []byte, apis []string) []group {
 		var v any
 		key := fmt.Sprintf("%d", o.R)
 		if o.R == 1 && depthOf(o.Value) <= 60 { // TLC's JSON reader has a nesting limit: deeper documents are judged for syntax only
-			v = fixTimes(valOpt.Encode(o.Value))
+			v = encode(o.Value)
 			jb, _ := json.Marshal(v)
 			key += string(jb)
 		}
